@@ -173,7 +173,8 @@ def build_layer(case, extra=False, collide=None):
     L.add_model(Model(name="t", table="t", primary_key="id", dimensions=[Dimension(name="s0", type="categorical")], metrics=mets, relationships=rels))
     g = case["graph"]
     if g:
-        ref = lambda n: "t." + n
+        # every other graph-level composite names its components WITHOUT their model (they are looked up among the registered models, t first)
+        ref = (lambda n: n) if graph_unqualified(case) else (lambda n: "t." + n)
         if g["kind"] == "ratio":
             L.add_metric(Metric(name=g["name"], type="ratio", numerator=ref(g["num"]), denominator=ref(g["den"])))
         else:
@@ -191,6 +192,12 @@ def build_layer(case, extra=False, collide=None):
     elif collide:
         L.add_metric(Metric(name=collide, type="derived", sql="zz.zz_only + 1000") if extra else Metric(name=collide, type="derived", sql="u.ucnt + 1000"))
     return L
+
+
+def graph_unqualified(case):
+    import zlib
+    g = case.get("graph")
+    return bool(g) and g["kind"] == "derived" and zlib.crc32(repr((g["name"], g.get("tree"), g.get("num"), g.get("den"))).encode()) % 2 == 1
 
 
 def inline_name_clash(case):
@@ -437,7 +444,7 @@ def run(c):
         if not info["queries"] or i % 2:
             continue
         try:
-            L2 = build_layer(case, extra=True, collide=("ALL" if i % 4 == 0 else None))
+            L2 = build_layer(case, extra=True, collide=("ALL" if i % 4 == 0 and not graph_unqualified(case) else None))
         except Exception as e:
             c.violation("adding an unrelated model makes the definitions fail: %s" % str(e)[:140], {"kind": "case", "case": case, "extra": True})
             continue
